@@ -1,5 +1,395 @@
-use crate::mc::Eng;
+//! C20 — device wrappers relay data between getters/settables and terminals unaltered.
+use crate::env::*;
+use crate::mc::*;
 use crate::Ctx;
-pub fn run(_ctx: &Ctx) -> Vec<Eng> {
-    vec![]
+use rrtk::devices::wrappers::*;
+use rrtk::streams::control::CommandPID;
+use rrtk::*;
+use std::cell::RefCell;
+use std::rc::Rc;
+
+type Term<'a> = RefCell<Terminal<'a, E>>;
+
+struct ProbeState<S> {
+    log: Vec<S>,
+    accept: bool,
+    updates: u64,
+    update_result: NothingOrError<E>,
+    order: Vec<u8>,
+}
+/// Inner settable whose observations live outside the wrapper that owns it.
+struct Probe<S: Clone> {
+    st: Rc<RefCell<ProbeState<S>>>,
+    data: SettableData<S, E>,
+}
+fn probe<S: Clone>() -> (Probe<S>, Rc<RefCell<ProbeState<S>>>) {
+    let st = Rc::new(RefCell::new(ProbeState { log: vec![], accept: true, updates: 0, update_result: Ok(()), order: vec![] }));
+    (Probe { st: st.clone(), data: SettableData::new() }, st)
+}
+impl<S: Clone> Settable<S, E> for Probe<S> {
+    fn impl_set(&mut self, v: S) -> NothingOrError<E> {
+        let mut s = self.st.borrow_mut();
+        s.order.push(b's');
+        if s.accept {
+            s.log.push(v);
+            Ok(())
+        } else {
+            Err(E3)
+        }
+    }
+    fn get_settable_data_ref(&self) -> &SettableData<S, E> {
+        &self.data
+    }
+    fn get_settable_data_mut(&mut self) -> &mut SettableData<S, E> {
+        &mut self.data
+    }
+}
+impl<S: Clone> Updatable<E> for Probe<S> {
+    fn update(&mut self) -> NothingOrError<E> {
+        {
+            let mut s = self.st.borrow_mut();
+            s.order.push(b'u');
+            s.updates += 1;
+        }
+        self.update_following_data()?;
+        self.st.borrow().update_result
+    }
+}
+struct GState {
+    next: Output<State, E>,
+    updates: u64,
+    update_result: NothingOrError<E>,
+}
+struct ProbeGetter {
+    st: Rc<RefCell<GState>>,
+}
+impl Getter<State, E> for ProbeGetter {
+    fn get(&self) -> Output<State, E> {
+        self.st.borrow().next.clone()
+    }
+}
+impl Updatable<E> for ProbeGetter {
+    fn update(&mut self) -> NothingOrError<E> {
+        let mut s = self.st.borrow_mut();
+        s.updates += 1;
+        s.update_result
+    }
+}
+
+const SA: State = State { position: 1.0, velocity: -2.0, acceleration: 0.5 };
+const SB: State = State { position: -6.0, velocity: 3.0, acceleration: 8.0 };
+const CA: Command = Command::Position(3.0);
+const CB: Command = Command::Velocity(-1.0);
+
+/// what the partner terminal receives in a round
+/// 0 nothing, 1 state A new, 2 state B new, 3 cmd A new, 4 cmd B new, 5 state A + cmd A new,
+/// 6 state A with the previous state's timestamp, 7 state B with an older timestamp
+const NPART: usize = 8;
+fn part_show(p: usize) -> &'static str {
+    ["-", "sA@new", "sB@new", "cA@new", "cB@new", "sA+cA@new", "sA@same", "sB@old"][p]
+}
+fn apply_partner(x: &Term, p: usize, now: i64, last_state_t: &mut i64) {
+    let mut set_s = |s: State, t: i64| {
+        x.borrow_mut().set(Datum::new(Time(t), s)).unwrap();
+    };
+    match p {
+        1 => {
+            set_s(SA, now);
+            *last_state_t = now;
+        }
+        2 => {
+            set_s(SB, now);
+            *last_state_t = now;
+        }
+        5 => {
+            set_s(SA, now);
+            *last_state_t = now;
+        }
+        6 => set_s(SA, *last_state_t),
+        7 => {
+            set_s(SB, now - 3 * S);
+            *last_state_t = now - 3 * S;
+        }
+        _ => {}
+    }
+    match p {
+        3 | 5 => x.borrow_mut().set(Datum::new(Time(now), CA)).unwrap(),
+        4 => x.borrow_mut().set(Datum::new(Time(now), CB)).unwrap(),
+        _ => {}
+    }
+}
+fn round_time(k: usize) -> i64 {
+    // irregular dyadic spacing starting below the PID wrapper's initial time
+    S + (k as i64) * S / 2 + if k % 3 == 2 { 2 * S } else { 0 }
+}
+fn combined(t: &Term) -> Option<Datum<TerminalData>> {
+    <Terminal<E> as Getter<TerminalData, E>>::get(&t.borrow()).unwrap()
+}
+fn own_state(t: &Term) -> Option<Datum<State>> {
+    <Terminal<E> as Settable<Datum<State>, E>>::get_last_request(&t.borrow())
+}
+fn own_cmd(t: &Term) -> Option<Datum<Command>> {
+    <Terminal<E> as Settable<Datum<Command>, E>>::get_last_request(&t.borrow())
+}
+
+// symbol = partner option + NPART * (inner flags)
+fn sym_show(kind: usize, s: usize) -> String {
+    let p = s % NPART;
+    let f = s / NPART;
+    match kind {
+        1 => format!("{}|getter {}|inner.update {}", part_show(p), ["P", "P'", "N", "E1"][f % 4], if f / 4 == 0 { "Ok" } else { "E2" }),
+        _ => format!("{}|inner {}|inner.update {}", part_show(p), if f % 2 == 0 { "accepts" } else { "rejects" }, if f / 2 == 0 { "Ok" } else { "E2" }),
+    }
+}
+fn seq_show(kind: usize, seq: &[usize]) -> String {
+    seq.iter().map(|&s| sym_show(kind, s)).collect::<Vec<_>>().join("; ")
+}
+
+fn nan_eq(a: f32, b: f32) -> bool {
+    a == b || (a.is_nan() && b.is_nan())
+}
+
+/// kind 0: ActuatorWrapper, 1: GetterStateDeviceWrapper, 2: PIDWrapper
+fn run_case(kind: usize, seq: &[usize], e: &mut Eng) -> u64 {
+    let n = seq.len();
+    let name = ["actuator", "encoder", "pid-wrapper"][kind];
+    let r = guard(|| -> Result<bool, (String, usize, String)> {
+        let x: Term = Terminal::new();
+        let mut last_state_t = 0i64;
+        let mut nontrivial = false;
+        match kind {
+            0 => {
+                let (p, st) = probe::<TerminalData>();
+                let mut w = ActuatorWrapper::new(p);
+                connect(w.get_terminal(), &x);
+                for (k, &s) in seq.iter().enumerate() {
+                    let (part, f) = (s % NPART, s / NPART);
+                    apply_partner(&x, part, round_time(k), &mut last_state_t);
+                    st.borrow_mut().accept = f % 2 == 0;
+                    st.borrow_mut().update_result = if f / 2 == 0 { Ok(()) } else { Err(E2) };
+                    let seen = combined(w.get_terminal());
+                    let seen2 = combined(w.get_terminal());
+                    let (log0, upd0) = (st.borrow().log.len(), st.borrow().updates);
+                    st.borrow_mut().order.clear();
+                    let own_before = (own_state(w.get_terminal()), own_cmd(w.get_terminal()));
+                    let res = w.update();
+                    let s_ = st.borrow();
+                    let order = String::from_utf8(s_.order.clone()).unwrap();
+                    if seen != seen2 {
+                        return Err(("impure-read".into(), k, "combined terminal read changed between two reads".into()));
+                    }
+                    if seen.is_some() {
+                        nontrivial = true;
+                    }
+                    let fail = |cls: &str, what: String| Err((cls.to_string(), k, format!("terminal saw {:?}; inner calls '{}' log grew by {} update() = {:?}: {}", seen, order, s_.log.len() - log0, res, what)));
+                    match (seen, f % 2 == 0) {
+                        (None, _) => {
+                            if order != "u" || s_.log.len() != log0 {
+                                return fail("set-without-data", "nothing seen at the terminal, so the inner settable must only be updated".into());
+                            }
+                            if res != s_.update_result {
+                                return fail("result", "update() must return the inner update's result".into());
+                            }
+                        }
+                        (Some(d), true) => {
+                            if order != "su" || s_.log.len() != log0 + 1 || s_.log[log0] != d.value {
+                                return fail("relay", format!("the inner settable must receive exactly {:?} once and then be updated once", d.value));
+                            }
+                            if res != s_.update_result {
+                                return fail("result", "update() must return the inner update's result".into());
+                            }
+                        }
+                        (Some(_), false) => {
+                            if !(order == "s" || order == "su") || s_.log.len() != log0 {
+                                return fail("relay", "a rejected set must be attempted exactly once".into());
+                            }
+                            if res != Err(E3) {
+                                return fail("result", "the inner settable's rejection must be returned".into());
+                            }
+                        }
+                    }
+                    let _ = upd0;
+                    if (own_state(w.get_terminal()), own_cmd(w.get_terminal())) != own_before {
+                        return fail("terminal-written", "an actuator wrapper must not write to its terminal".into());
+                    }
+                }
+            }
+            1 => {
+                let st = Rc::new(RefCell::new(GState { next: Ok(None), updates: 0, update_result: Ok(()) }));
+                let mut w = GetterStateDeviceWrapper::new(ProbeGetter { st: st.clone() });
+                connect(w.get_terminal(), &x);
+                for (k, &s) in seq.iter().enumerate() {
+                    let (part, f) = (s % NPART, s / NPART);
+                    let now = round_time(k);
+                    apply_partner(&x, part, now, &mut last_state_t);
+                    let inner: Output<State, E> = match f % 4 {
+                        0 => Ok(Some(Datum::new(Time(now - 7), State::new_raw(0.1 + k as f32, -7.3, 1e3)))),
+                        1 => Ok(Some(Datum::new(Time(-now), State::new_raw(-0.0, f32::MIN_POSITIVE, 3.0)))),
+                        2 => Ok(None),
+                        _ => Err(E1),
+                    };
+                    st.borrow_mut().next = inner.clone();
+                    st.borrow_mut().update_result = if f / 4 == 0 { Ok(()) } else { Err(E2) };
+                    let upd0 = st.borrow().updates;
+                    let own0 = (own_state(w.get_terminal()), own_cmd(w.get_terminal()));
+                    let xown0 = (own_state(&x), own_cmd(&x));
+                    let res = w.update();
+                    let own1 = (own_state(w.get_terminal()), own_cmd(w.get_terminal()));
+                    let fail = |cls: &str, what: String| Err((cls.to_string(), k, format!("inner getter {:?}, inner update result {:?}; wrapper update() = {:?}, terminal own state {:?} -> {:?}: {}", inner, st.borrow().update_result, res, own0.0, own1.0, what)));
+                    if st.borrow().updates != upd0 + 1 {
+                        return fail("inner-update-count", format!("inner getter updated {} times", st.borrow().updates - upd0));
+                    }
+                    if (own_state(&x), own_cmd(&x)) != xown0 || own1.1 != own0.1 {
+                        return fail("foreign-slot-written", "only the wrapper's own state slot may be written".into());
+                    }
+                    let upd_err = f / 4 != 0;
+                    match (&inner, upd_err) {
+                        (_, true) => {
+                            if res != Err(E2) {
+                                return fail("result", "the inner update's error must be returned".into());
+                            }
+                        }
+                        (Err(er), false) => {
+                            if res != Err(*er) || own1.0 != own0.0 {
+                                return fail("result", "the inner getter's error must be returned and the terminal left untouched".into());
+                            }
+                        }
+                        (Ok(None), false) => {
+                            if res != Ok(()) || own1.0 != own0.0 {
+                                return fail("absent-written", "an absent inner state must leave the terminal untouched".into());
+                            }
+                        }
+                        (Ok(Some(d)), false) => {
+                            nontrivial = true;
+                            let same = match own1.0 {
+                                Some(o) => o.time == d.time && o.value.position.to_bits() == d.value.position.to_bits() && o.value.velocity.to_bits() == d.value.velocity.to_bits() && o.value.acceleration.to_bits() == d.value.acceleration.to_bits(),
+                                None => false,
+                            };
+                            if res != Ok(()) || !same {
+                                return fail("relay", format!("the terminal must now hold exactly {:?}", d));
+                            }
+                        }
+                    }
+                }
+            }
+            _ => {
+                let kv = crate::c11::kvals();
+                let init_state = State::new_raw(0.5, 0.25, -1.0);
+                let init_cmd = CA;
+                let init_time = Time(3 * S);
+                let (p, st) = probe::<f32>();
+                let mut w = PIDWrapper::new(p, init_time, init_state, init_cmd, kv);
+                connect(w.get_terminal(), &x);
+                // stand-alone controller driven with what the terminal sees
+                let clock = rc(init_time);
+                let sg = rc(ConstantGetter::<State, Time, E>::new(rf(&clock), init_state));
+                let mut pid = CommandPID::new(rf(&sg), init_cmd, kv);
+                for (k, &s) in seq.iter().enumerate() {
+                    let (part, f) = (s % NPART, s / NPART);
+                    apply_partner(&x, part, round_time(k), &mut last_state_t);
+                    st.borrow_mut().accept = f % 2 == 0;
+                    st.borrow_mut().update_result = if f / 2 == 0 { Ok(()) } else { Err(E2) };
+                    let seen = combined(w.get_terminal());
+                    let log0 = st.borrow().log.len();
+                    let mut pid_err = None;
+                    if let Some(d) = seen {
+                        nontrivial = true;
+                        *clock.borrow_mut() = d.value.time;
+                        if let Some(s) = d.value.state {
+                            sg.borrow_mut().set(s).unwrap();
+                        }
+                        if let Some(c) = d.value.command {
+                            pid.set(c).unwrap();
+                        }
+                        if let Err(er) = pid.update() {
+                            pid_err = Some(er);
+                        }
+                    }
+                    let expect = pid.get();
+                    let res = w.update();
+                    let s_ = st.borrow();
+                    let fail = |cls: &str, what: String| Err((cls.to_string(), k, format!("terminal saw {:?}; stand-alone CommandPID now outputs {:?}; motor log grew by {:?}, wrapper update() = {:?}: {}", seen, expect, &s_.log[log0..], res, what)));
+                    if pid_err.is_some() {
+                        continue;
+                    }
+                    match expect {
+                        Ok(Some(d)) => {
+                            if f % 2 == 0 {
+                                if s_.log.len() != log0 + 1 || !nan_eq(s_.log[log0], d.value) {
+                                    return fail("drive-value", format!("the motor must be set to exactly {:?}", d.value));
+                                }
+                                if res != s_.update_result {
+                                    return fail("result", "update() must return the motor update's result".into());
+                                }
+                            } else if s_.log.len() != log0 || res != Err(E3) {
+                                return fail("result", "the motor's rejection must be returned".into());
+                            }
+                        }
+                        Ok(None) => {
+                            if s_.log.len() != log0 {
+                                return fail("drive-value", "the controller output is absent, the motor must not be set".into());
+                            }
+                        }
+                        Err(_) => {}
+                    }
+                }
+            }
+        }
+        Ok(nontrivial)
+    });
+    match r {
+        Err(m) => e.violation(&format!("wrapper:{}:panic", name), n, || format!("rounds [{}] panicked: {}", seq_show(kind, seq), m)),
+        Ok(Err((cls, k, what))) => e.violation(&format!("wrapper:{}:{}", name, cls), k + 1, || format!("rounds [{}] :: round {}: {}", seq_show(kind, &seq[..=k]), k, what)),
+        Ok(Ok(nt)) => {
+            if nt {
+                e.nontrivial += 1;
+            }
+        }
+    }
+    e.outcome(h64(&(kind, seq)));
+    e.checks += n as u64;
+    n as u64
+}
+
+pub fn run(ctx: &Ctx) -> Vec<Eng> {
+    let budget = Budget::secs(if ctx.thorough { 2000 } else { 120 });
+    let mut out = Vec::new();
+    for kind in 0..3 {
+        let name = ["actuator", "encoder", "pid-wrapper"][kind];
+        let flags = if kind == 1 { 8 } else { 4 };
+        let nsym = NPART * flags;
+        let depth_full = if ctx.thorough { 4 } else { 3 };
+        let depth_part = if ctx.thorough { 7 } else { 6 };
+        let mut e = Eng::new(
+            &format!("c20-{}", name),
+            match kind {
+                0 => "ActuatorWrapper connected to a partner terminal: all sequences of rounds, a round = partner receives one of {nothing, state A/B new, command A/B new, both, state with the same timestamp, state with an older timestamp} x inner settable {accepts, rejects} x inner update {Ok, E2}, then update(wrapper); oracle: the recorded set argument = the combined read taken at the terminal just before (nothing if absent), then exactly one inner update, rejection / inner error returned, terminal never written; non-trivial = terminal saw data",
+                1 => "GetterStateDeviceWrapper: rounds = partner option x inner getter {P, P' (negative time, -0, subnormal), N, E1} x inner update {Ok, E2}; oracle: exactly one inner update; present state written bit-for-bit with its time into the wrapper's own state slot; absent/error leave it untouched; errors returned; no other slot written; non-trivial = a present state was relayed",
+                _ => "PIDWrapper over a recording motor: rounds = partner option x motor {accepts, rejects} x motor update {Ok, E2}; oracle: a stand-alone real CommandPID fed the (time, state, command) the terminal sees each round must output exactly the f32 the motor records (initial time later than the first data, timestamps that stand still or step back included); non-trivial = terminal saw data",
+            },
+            &format!("all {}^{} sequences over the full alphabet + all {}^{} sequences over the partner options alone", nsym, depth_full, NPART, depth_part),
+        );
+        par_seqs(&mut e, nsym, depth_full, budget, |seq, e| {
+            let a = run_case(kind, seq, e);
+            e.sample(|| seq_show(kind, seq));
+            a
+        });
+        par_seqs(&mut e, NPART, depth_part, budget, |seq, e| run_case(kind, seq, e));
+        let (hz, k) = if ctx.thorough { (32, 3) } else { (16, 2) };
+        let cases = deviation_cases(hz, nsym - 1, k);
+        par_cases(&mut e, &cases, budget, |c, e| {
+            // default round: state A new, inner fine (symbol 1)
+            let mut seq = vec![1usize; hz];
+            for &(p, a) in c {
+                seq[p as usize] = if (a as usize) < 1 { 0 } else { a as usize + 1 };
+            }
+            e.executions += 1;
+            e.states += 1;
+            e.max_depth = e.max_depth.max(hz as u64);
+            e.transitions += run_case(kind, &seq, e);
+        });
+        e.bounds.push_str(&format!("; plus all {}-round sequences within {} deviations of the default round", hz, k));
+        out.push(e);
+    }
+    out
 }
